@@ -271,10 +271,41 @@ def r08_3(ctx: Ctx) -> None:
         raise AnalysisError(f"record.py: expected at least 2 bisection-bounded windows, found {count}")
 
 
+def r08_4(ctx: Ctx) -> None:
+    """ the look-ahead of the gene lookup: a gene that starts inside the query but runs past its end may hide genes
+        nested inside *it* that do lie within the query; the scan goes on while the next gene is nested in the current one """
+    from ..flow import inline_reaching
+    qual = "Record.get_cds_features_within_location"
+    func = ctx.fn(REC, qual)
+    cfg = CFG(func)
+    count = 0
+    for call in calls(func):
+        if last_attr(call) != "is_contained_by" or not isinstance(call.func, ast.Attribute) or len(call.args) != 1:
+            continue
+        recv = call.func.value
+        if not (isinstance(recv, ast.Subscript) and isinstance(recv.slice, ast.BinOp) and isinstance(recv.slice.op, ast.Add)
+                and isinstance(recv.slice.right, ast.Constant) and recv.slice.right.value == 1):
+            continue
+        count += 1
+        lst, index = txt(recv.value), txt(recv.slice.left)
+        current = txt(inline_reaching(cfg, call, ast.parse(f"{lst}[{index}]", mode="eval").body))
+        arg = txt(inline_reaching(cfg, call, call.args[0]))
+        ctx.ob("R08.4", REC, call, qual, f"look-ahead {txt(call)[:60]}", arg == current,
+               "the scan continues past a gene that is not itself a result only while the next gene is nested in that gene "
+               "(nesting in the query is a different condition: with two levels of overrunning genes the scan would stop "
+               "before reaching an inner gene that lies within the query)",
+               detail="" if arg == current else f"next gene tested against `{arg}` instead of the current gene `{current}`",
+               form=f"{txt(recv)} nested in {arg}")
+    if count < 1:
+        raise AnalysisError(f"{qual}: the nested-gene look-ahead was not found")
+
+
 def run(ctx: Ctx) -> None:
+    ctx.rule("R08.4", "the lookup's look-ahead follows nesting in the current gene", floor=1)
     ctx.rule("R08.1", "gene-after-area and area-after-gene linking visit the same collections, on every path", floor=14)
     ctx.rule("R08.2", "add_cds refuses, forwards to children, and records defining genes under core and product", floor=6)
     r08_1(ctx)
     r08_2(ctx)
     ctx.rule("R08.3", "bisection windows over the sorted gene/region lists include ties", floor=3)
     r08_3(ctx)
+    r08_4(ctx)
